@@ -14,9 +14,11 @@ mod = importlib.import_module(pid)
 def same(got):
     if got == shape:
         return True
-    # a multi-shape result that contains the wanted single shape
-    return isinstance(got, dict) and isinstance(shape, dict) and set(got) == {"shapes"} == set(shape) and \
-        set(shape["shapes"]) <= set(got["shapes"])
+    # a multi-shape result ({"shapes": [...]}, {"leak": [...]}) that contains the wanted single shape
+    if isinstance(got, dict) and isinstance(shape, dict) and len(got) == 1 and set(got) == set(shape):
+        k = next(iter(got))
+        return isinstance(got[k], list) and isinstance(shape[k], list) and set(map(json.dumps, shape[k])) <= set(map(json.dumps, got[k]))
+    return False
 
 
 for seed in range(1, maxseeds + 1):
